@@ -107,8 +107,15 @@ def gen_plan(S, index, tier):
                 continue
             h2 = f'X{nobj}'
             nobj += 1
-            events.append({'act': kind, 'src': h, 'out': h2})
+            ev = {'act': kind, 'src': h, 'out': h2}
             models[h2] = m.clone()
+            if kind == 'rebuild' and nobj < 4 and S.coin(0.6):
+                # two annotations built from ONE field dictionary that the caller keeps
+                h3 = f'X{nobj}'
+                nobj += 1
+                ev['out2'] = h3
+                models[h3] = m.clone()
+            events.append(ev)
         elif kind == 'field':
             f = S.pick(FIELDS)
             val = _gen_fieldval(S, cfg, f)
@@ -434,6 +441,7 @@ class _Run(RunBase):
         self.live = {}
         self.models = {}
         self.lists = {}
+        self.kept = []
         self.tainted = False
 
     def on_known(self):
@@ -456,6 +464,18 @@ class _Run(RunBase):
                 if self.violation(inv, opname, d[0].split('[')[0],
                                   f"{inv}: after event {ev_i} ({opname}) {what}: field {d[0]}: live {d[1]!r} != "
                                   f"model {d[2]!r}", ev_i, {'object': h}):
+                    return True
+        return False
+
+    def check_kept(self, ev_i, ev):
+        for k, (d, nf, who) in enumerate(self.kept):
+            self.out.oracle_checks += 1
+            diff = N.same(nf, N.norm(d))
+            if diff is not None:
+                self.kept[k] = (d, N.norm(d), who)
+                if self.violation('INDEP', _opname(ev), 'kept-dict',
+                                  f"INDEP: the field dictionary from which {who} was built changed across event {ev_i} "
+                                  f"({_opname(ev)}): {diff}", ev_i):
                     return True
         return False
 
@@ -626,10 +646,18 @@ def _exec_event(run, ev_i, ev):
         src = run.live.get(ev['src'])
         if src is None:
             return False
-        c = _lib(lambda: pt.create_annotation(**src.dict()))
+        d = _lib(src.dict)
+        c = _lib(lambda: pt.create_annotation(**d))
         run.live[ev['out']] = c
         run.models[ev['out']] = run.models[ev['src']].clone()
         out.probes['rebuilds'] += 1
+        if ev.get('out2'):
+            c2 = _lib(lambda: pt.create_annotation(**d))
+            run.live[ev['out2']] = c2
+            run.models[ev['out2']] = run.models[ev['src']].clone()
+            out.probes['rebuilds_from_one_kept_dict'] += 1
+        # the caller keeps the dictionary: it must stay what it was whatever happens to the annotations built from it
+        run.kept.append((d, N.norm(d), ev['out']))
         edited = None
     elif act == 'field':
         f = ev['field']
@@ -810,6 +838,8 @@ def _exec_event(run, ev_i, ev):
         out.probes['single_field_perturbations'] += 1
     if run.check_models(ev_i, ev, edited):
         return True
+    if run.check_kept(ev_i, ev):
+        return True
     return run.check_eq_matrix(ev_i, ev)
 
 
@@ -972,7 +1002,7 @@ RULE = ("seeded random editor history (8-25 events) on a generated source annota
         "with values as Mod | raw | list | caller-owned list, pokes at Mod objects, scribbles on returned views, "
         "single-field perturbations and reorderings. Distinct = distinct sequence of event kinds; non-trivial = at "
         "least two live objects and more than two oracle comparisons.")
-EXPECTED_PROBES = ['copies', 'rebuilds', 'roundtrips', 'single_field_perturbations', 'eq_negative_checked',
+EXPECTED_PROBES = ['copies', 'rebuilds', 'rebuilds_from_one_kept_dict', 'roundtrips', 'single_field_perturbations', 'eq_negative_checked',
                    'eq_positive_checked', 'perturb-value', 'perturb-mult', 'perturb-drop', 'perturb-dup',
                    'perturb-position', 'reorder']
 ASSUMPTIONS = [
